@@ -461,6 +461,8 @@ class CallMixin:
         a = args[0] if args else None
         if isinstance(a, V) and isinstance(a.t, TStr):
             yield st, a
+        elif isinstance(a, V) and isinstance(a.t, TFP):
+            yield from self.bi_repr(st, args, kw, node)          # str(float) is repr(float)
         elif isinstance(a, V) and isinstance(a.t, TInt):
             # str(int): a decimal digit token d with int(d) == |n|, '-' in front of negative numbers (A-STRNUM)
             d = fresh(STR, "digits")
@@ -498,7 +500,8 @@ class CallMixin:
 
     def strnum_facts(self):
         S = z3.StringVal
-        return z3.And(self.VALIDF(S("inf")), self.VALIDF(S("nan")), self.VALIDF(S("-inf")),
+        quoted = [z3.And(self.ISQ(S(repr(t))), self.UNQ(S(repr(t))) == S(t)) for t in ("inf", "-inf", "nan")]
+        return z3.And(*quoted, self.VALIDF(S("inf")), self.VALIDF(S("nan")), self.VALIDF(S("-inf")),
                       self.S2F(S("inf")) == z3.fpPlusInfinity(vals.FP64), self.S2F(S("-inf")) == z3.fpMinusInfinity(vals.FP64),
                       z3.fpIsNaN(self.S2F(S("nan"))))
 
@@ -539,6 +542,11 @@ class CallMixin:
             raise EngineError("cast(x, Class) needs an object and a declared class")
         yield st, V(TRef(cname), a.zs)
 
+    def bi_isident(self, st, args, kw, node):
+        """ASCII identifiers (an under-approximation of str.isidentifier: non-ASCII identifiers are not recognised)."""
+        al = z3.Union(z3.Range("a", "z"), z3.Range("A", "Z"), z3.Re("_"))
+        yield st, mk_bool(z3.InRe(self.as_value(args[0]).z, z3.Concat(al, z3.Star(z3.Union(al, z3.Range("0", "9"))))))
+
     def bi_isdigits(self, st, args, kw, node):
         yield st, mk_bool(self.DIG(self.as_value(args[0]).z))
 
@@ -555,10 +563,10 @@ class CallMixin:
         yield st.assume(self.strnum_facts()), mk_bool(self.VALIDF(self.as_value(args[0]).z))
 
     def bi_unq(self, st, args, kw, node):
-        yield st, mk_str(self.UNQ(self.as_value(args[0]).z))
+        yield st.assume(self.strnum_facts()), mk_str(self.UNQ(self.as_value(args[0]).z))
 
     def bi_isquoted(self, st, args, kw, node):
-        yield st, mk_bool(self.ISQ(self.as_value(args[0]).z))
+        yield st.assume(self.strnum_facts()), mk_bool(self.ISQ(self.as_value(args[0]).z))
 
     def bi_math_copysign(self, st, args, kw, node):
         a, b = self.as_value(args[0]), self.as_value(args[1])
